@@ -43,7 +43,7 @@ VARIABLES
   trk,     \* error tracker: [pos, positive, att, stack]
   skp,     \* nesting depth of implicit skips (they run under a throw-away tracker)
   dv,      \* derivation events in pre-order (what the typed tree stores): rule / leaf / alt / opt / rep / iter /
-           \* seq / elem / push records, patched on success, truncated on failure; nothing from implicit skips
+           \* seq / elem / push records, patched on success, truncated on failure
   log,     \* ghost: every invocation of a non-silent rule [r, at, ok]
   fin      \* results collected at the end of the partial phase
 
@@ -116,8 +116,9 @@ UEnv == UNCHANGED <<cfg, fin>>
 UTree == UNCHANGED <<at, look, dep, toks, calls, cdep>>
 UDv == UNCHANGED dv
 
-\* derivation queue: append / patch only outside implicit skips; a frame remembers the index of its record (0 = none)
-DvOn == skp = 0
+\* derivation queue; a frame remembers the index of its record (0 = none).  The nodes matched by implicit skips are
+\* part of the typed tree (Skipped.skipped), so they are recorded too (below the iter / elem record that owns them).
+DvOn == TRUE
 DvIdx == IF DvOn THEN Len(dv) + 1 ELSE 0
 DvApp(q, ev) == IF DvOn THEN Append(q, ev @@ [d |-> cdep]) ELSE q
 LeafKind == IF cur.t = "call" THEN cur.n ELSE cur.t
